@@ -228,13 +228,15 @@ def case_init_tuple(n, with_phases, dtype="int8"):
                    freeze=lambda args: [(f"data{i}", a) for i, a in enumerate(args[1])], canary=lambda args, kw, out: L.EQ(args[0].R if out.interp is not None else out.result.R, np.zeros((n, n), dtype=np.int64)))
 
 
-def case_init_graph(n):
-    """Stabilizer(graph): generators X_v Z_N(v), zero phases; the graph's adjacency matrix is not written"""
+def case_init_graph(n, dtype="int8"):
+    """Stabilizer(graph): generators X_v Z_N(v), zero phases; the graph's adjacency matrix (of any integer dtype) is not written"""
     from htstabilizer.stabilizer import Stabilizer
     from .layer import mk_graph, conc_graph
 
     def make():
-        return [Stabilizer.__new__(Stabilizer), mk_graph(n)], {}, True
+        g = mk_graph(n)
+        g.adjacency_matrix.decl = np.dtype(dtype)
+        return [Stabilizer.__new__(Stabilizer), g], {}, True
 
     def post(args, kw, out):
         st, g = args
@@ -252,5 +254,11 @@ def case_init_graph(n):
     def replay_args(model, args, kwargs):
         return [None, conc_graph(args[1], model)], {}
 
-    return vc.Case(f"Stabilizer.__init__[graph,n={n}]", Stabilizer.__init__, make, post, native_call=lambda st, g: Stabilizer(g), replay_args=replay_args,
+    def replay_args(model, args, kwargs):            # noqa: F811  (dtype-aware)
+        from htstabilizer.graph import Graph
+        g = Graph(n)
+        g.adjacency_matrix = np.asarray(S.concretize(args[1].adjacency_matrix, model)).astype(dtype)
+        return [None, g], {}
+
+    return vc.Case(f"Stabilizer.__init__[graph,n={n},{dtype}]", Stabilizer.__init__, make, post, native_call=lambda st, g: Stabilizer(g), replay_args=replay_args,
                    freeze=lambda args: [("graph.adjacency_matrix", args[1].adjacency_matrix)])
